@@ -1,8 +1,8 @@
 /-
   Dirk.Props.KernelsEq — the decision kernels, as translated mechanically from /repo's current Go source
   by /verif/factx (Dirk/Gen/Kernels.lean, regenerated on every run), are extensionally EQUAL to the hand-written
-  model functions of Dirk/Model/Rules.lean (§1–3), Dirk/Model/Checker.lean (§4–5) and Dirk/Model/Dkg.lean (§6–7),
-  for all inputs.
+  model functions of Dirk/Model/Rules.lean (§1–3), Dirk/Model/Checker.lean (§4–5), Dirk/Model/Dkg.lean (§6–7, §9–11),
+  Dirk/Model/Scatter.lean (§8) and Dirk/Model/Crashes.lean (§12), for all inputs.
 
   A semantic edit of a Go kernel changes the regenerated definition and one of these theorems stops building;
   a Go construct outside the translator's fragment replaces the definition by `kernelUntranslatable_…`, and this
@@ -11,6 +11,8 @@
 import Dirk.Model.Rules
 import Dirk.Model.Checker
 import Dirk.Model.Dkg
+import Dirk.Model.Scatter
+import Dirk.Model.Crashes
 import Dirk.Gen.Kernels
 
 namespace Dirk
@@ -198,5 +200,311 @@ theorem fixedAccepts_eq_gen (valid : Bool) (vlen threshold : Nat) (listed : Bool
 example : Dkg.fixedAccepts true 3 3 true = true ∧ Gen.fixedAcceptsGen true 3 3 true = true ∧
     Gen.fixedAcceptsGen true 4 3 true = false ∧ Gen.fixedAcceptsGen false 3 3 true = false ∧
     Gen.fixedAcceptsGen true 3 3 false = false := by decide
+
+/-! ## 8. `calculateExtentSize` -/
+
+theorem wrapI64_id (x : Int) (h1 : -9223372036854775808 ≤ x) (h2 : x ≤ 9223372036854775807) :
+    Gen.wrapI64 x = x := by
+  unfold Gen.wrapI64; omega
+
+theorem extentSize_eq_gen (n p : Nat) (hp : 0 < p) (hn : n ≤ maxI64) :
+    Gen.extentSizeGen n p = some (extentSize n p : Int) := by
+  have hdiv : Int.tdiv (n : Int) (p : Int) = ((n / p : Nat) : Int) := (Int.ofNat_tdiv n p).symm
+  have hle : n / p ≤ n := Nat.div_le_self n p
+  have hp' : ¬ ((p : Int) = 0) := by omega
+  unfold maxI64 at hn
+  unfold Gen.extentSizeGen extentSize
+  simp only [hp', if_false, hdiv]
+  generalize n / p = e at hle ⊢
+  rw [wrapI64_id _ (by omega) (by omega)]
+  by_cases he : e = 0
+  · simp [he]
+  · have he' : ¬ ((e : Int) = 0) := by omega
+    have hmod : Int.tmod (n : Int) (e : Int) = ((n % e : Nat) : Int) := (Int.ofNat_tmod n e).symm
+    have hne : n % e > 0 → e ≠ n := by
+      intro hm h; rw [h, Nat.mod_self] at hm; omega
+    simp only [he', he, if_false, hmod]
+    generalize n % e = m at hne ⊢
+    by_cases hm : m > 0
+    · have hm' : (m : Int) > 0 := by omega
+      have := hne hm
+      simp only [hm', hm, if_true]
+      rw [wrapI64_id _ (by omega) (by omega)]
+      simp
+    · have hm' : ¬ ((m : Int) > 0) := by omega
+      simp only [hm', hm, if_false]
+
+/-- with `procs = 0` the Go code panics (integer divide by zero); the runtime never reports 0 processors -/
+theorem extentSizeGen_zero (items : Int) : Gen.extentSizeGen items 0 = none := by
+  unfold Gen.extentSizeGen; simp
+
+example : Gen.extentSizeGen 10 3 = some 4 ∧ Gen.extentSizeGen 3 8 = some 1 ∧ Gen.extentSizeGen 8 4 = some 2 ∧
+    extentSize 10 3 = 4 := by decide
+
+/-! ## 9. `senderID` -/
+
+theorem senderIdLoopGen_nil (caller : String) (acc : Nat) : Gen.senderIdLoopGen caller acc [] = acc := by
+  rw [Gen.senderIdLoopGen]
+
+/-- one iteration, in a fixed orientation (the source may write the comparison either way round) -/
+theorem senderIdLoopGen_cons (caller : String) (acc : Nat) (p : Nat × String) (ps : List (Nat × String)) :
+    Gen.senderIdLoopGen caller acc (p :: ps) =
+      if p.2 = caller then p.1 else Gen.senderIdLoopGen caller acc ps := by
+  by_cases h : p.2 = caller
+  · simp [Gen.senderIdLoopGen, h]
+  · have h' : ¬ caller = p.2 := fun e => h e.symm
+    first | (simp only [Gen.senderIdLoopGen, h, if_false]; done) | simp only [Gen.senderIdLoopGen, h, h', if_false]
+
+/-- the translated loop returns the id of the FIRST entry (in iteration order) whose name equals the caller
+    exactly, and leaves the result variable alone if there is none -/
+theorem senderIdLoopGen_find (caller : String) (acc : Nat) (peers : List (Nat × String)) :
+    Gen.senderIdLoopGen caller acc peers = ((peers.find? (fun p => p.2 == caller)).map (·.1)).getD acc := by
+  induction peers with
+  | nil => rw [senderIdLoopGen_nil]; rfl
+  | cons p ps ih =>
+    rw [senderIdLoopGen_cons]
+    by_cases h : p.2 = caller
+    · simp [h]
+    · simp [h, ih]
+
+theorem senderIdGen_first (pre post : List (Nat × String)) (id : Nat) (caller : String)
+    (hpre : ∀ p ∈ pre, p.2 ≠ caller) :
+    Gen.senderIdGen (pre ++ (id, caller) :: post) caller = id := by
+  unfold Gen.senderIdGen
+  induction pre with
+  | nil => simp [senderIdLoopGen_cons]
+  | cons q qs ih =>
+    have hq : q.2 ≠ caller := hpre q (by simp)
+    simp only [List.cons_append, senderIdLoopGen_cons, hq, if_false]
+    exact ih (fun p hp => hpre p (by simp [hp]))
+
+theorem senderIdGen_none (peers : List (Nat × String)) (caller : String) (h : ∀ p ∈ peers, p.2 ≠ caller) :
+    Gen.senderIdGen peers caller = 0 := by
+  unfold Gen.senderIdGen
+  induction peers with
+  | nil => rw [senderIdLoopGen_nil]
+  | cons q qs ih =>
+    have hq : q.2 ≠ caller := h q (by simp)
+    simp only [senderIdLoopGen_cons, hq, if_false]
+    exact ih (fun p hp => h p (by simp [hp]))
+
+/-- order-independent characterisation (Go ranges over a map): if the configured names are distinct, the result is
+    the id of THE peer with the caller's name, wherever it comes in the iteration -/
+theorem senderIdGen_mem (peers : List (Nat × String)) (id : Nat) (caller : String)
+    (hnd : (peers.map (·.2)).Nodup) (hmem : (id, caller) ∈ peers) :
+    Gen.senderIdGen peers caller = id := by
+  unfold Gen.senderIdGen
+  induction peers with
+  | nil => simp at hmem
+  | cons q qs ih =>
+    simp only [List.map_cons, List.nodup_cons] at hnd
+    by_cases hq : q.2 = caller
+    · simp only [senderIdLoopGen_cons, hq, if_true]
+      rcases List.mem_cons.mp hmem with h | h
+      · rw [← h]
+      · exfalso
+        apply hnd.1
+        rw [hq]
+        exact List.mem_map.mpr ⟨(id, caller), h, rfl⟩
+    · simp only [senderIdLoopGen_cons, hq, if_false]
+      rcases List.mem_cons.mp hmem with h | h
+      · exfalso; apply hq; rw [← h]
+      · exact ih hnd.2 h
+
+/-- **`senderIdGen_spec`**: exact (case-sensitive, un-normalised) name equality decides; 0 if no peer has the name;
+    with distinct names, the id of the one that has it — whatever the iteration order -/
+theorem senderIdGen_spec (peers : List (Nat × String)) (caller : String) :
+    ((∀ p ∈ peers, p.2 ≠ caller) → Gen.senderIdGen peers caller = 0) ∧
+    (∀ id, (peers.map (·.2)).Nodup → (id, caller) ∈ peers → Gen.senderIdGen peers caller = id) :=
+  ⟨senderIdGen_none peers caller, fun id hnd hmem => senderIdGen_mem peers id caller hnd hmem⟩
+
+/-- Go's map iteration order does not matter when the names are distinct (`static.New` refuses duplicate names) -/
+theorem senderIdGen_perm (peers peers' : List (Nat × String)) (caller : String)
+    (hperm : peers.Perm peers') (hnd : (peers.map (·.2)).Nodup) :
+    Gen.senderIdGen peers caller = Gen.senderIdGen peers' caller := by
+  have hnd' : (peers'.map (·.2)).Nodup := (hperm.map (·.2)).nodup_iff.mp hnd
+  by_cases h : ∃ p ∈ peers, p.2 = caller
+  · obtain ⟨p, hp, hpc⟩ := h
+    have hp1 : (p.1, caller) ∈ peers := by rw [← hpc]; exact hp
+    rw [senderIdGen_mem peers p.1 caller hnd hp1, senderIdGen_mem peers' p.1 caller hnd' (hperm.mem_iff.mp hp1)]
+  · have h1 : ∀ p ∈ peers, p.2 ≠ caller := fun p hp hc => h ⟨p, hp, hc⟩
+    have h2 : ∀ p ∈ peers', p.2 ≠ caller := fun p hp => h1 p (hperm.mem_iff.mpr hp)
+    rw [senderIdGen_none peers caller h1, senderIdGen_none peers' caller h2]
+
+/-- the model's `senderId` works on ids (the caller's name is already resolved); for a cluster whose peers carry
+    pairwise different names — `name` injective — the translated resolution of `name caller` over the configured
+    table is exactly the model's function of `caller` -/
+theorem senderId_eq_gen (c : Dkg.Cluster) (name : Nat → String) (hinj : ∀ a b, name a = name b → a = b)
+    (caller : Nat) :
+    Dkg.senderId c caller = Gen.senderIdGen (c.peers.map (fun i => (i, name i))) (name caller) := by
+  unfold Dkg.senderId Gen.senderIdGen
+  induction c.peers with
+  | nil => simp [senderIdLoopGen_nil]
+  | cons i is ih =>
+    simp only [List.map_cons, senderIdLoopGen_cons]
+    by_cases h : i = caller
+    · simp [h]
+    · have hn : ¬ (name i = name caller) := fun hc => h (hinj _ _ hc)
+      have hb : (caller == i) = false := by simp; exact fun hc => h hc.symm
+      simp only [hn, if_false, ← ih, List.contains_cons, hb, Bool.false_or]
+
+/-- a context without a client name gives 0 (not a peer) -/
+theorem senderIdCtxGen_none (peers : List (Nat × String)) : Gen.senderIdCtxGen none peers = 0 := rfl
+
+/-- exact matching: a name differing in case, or by a trailing dot, is not the peer -/
+example : Gen.senderIdGen [(1, "signer-1"), (2, "signer-2")] "signer-2" = 2 ∧
+    Gen.senderIdGen [(1, "signer-1"), (2, "signer-2")] "Signer-2" = 0 ∧
+    Gen.senderIdGen [(1, "signer-1"), (2, "signer-2")] "signer-2." = 0 ∧
+    Gen.senderIdCtxGen (some "signer-1") [(2, "signer-2"), (1, "signer-1")] = 1 := by
+  simp [Gen.senderIdCtxGen, Gen.senderIdGen, senderIdLoopGen_cons, senderIdLoopGen_nil]
+
+/-- the hypotheses of the order-independent statements are satisfiable: two peers, either iteration order -/
+example : Gen.senderIdGen [(1, "signer-1"), (2, "signer-2")] "signer-2" =
+    Gen.senderIdGen [(2, "signer-2"), (1, "signer-1")] "signer-2" :=
+  senderIdGen_perm _ _ _ (List.Perm.swap _ _ _) (by simp)
+
+/-! ## 10. the acceptance conditions of `OnCommit` -/
+
+theorem commitListedGen_eq (l : List (Bool × Bool)) :
+    Gen.commitListedGen l = (l.all (·.1) && l.all (·.2)) := by
+  induction l with
+  | nil => rfl
+  | cons p ps ih =>
+    unfold Gen.commitListedGen
+    rw [ih]
+    obtain ⟨a, b⟩ := p
+    cases a <;> cases b <;> simp
+    -- remaining: rearrangement of conjunctions
+    all_goals grind
+
+/-- what the translated guards say, for independently held secrets and vectors (`secrets`, `vvecs`: the key sets of
+    generation.sharedSecrets / sharedVVecs; `parts`: the IDs of generation.participants) -/
+theorem commitAcceptsGen_spec (secrets vvecs parts : List Nat) :
+    Gen.commitAcceptsGen secrets.length vvecs.length parts.length
+        (parts.map (fun p => (secrets.contains p, vvecs.contains p))) =
+      (decide (secrets.length = parts.length) && decide (vvecs.length = parts.length) &&
+        parts.all (fun p => secrets.contains p) && parts.all (fun p => vvecs.contains p)) := by
+  unfold Gen.commitAcceptsGen
+  rw [commitListedGen_eq]
+  simp only [List.all_map]
+  repeat' split
+  all_goals simp_all [Function.comp_def]
+
+/-- the two checks of the model's `onCommit` (secrets and vectors are stored together: `contributed`) -/
+def commitChecks (s : Dkg.Session) : Bool :=
+  !(decide (s.contributed.length ≠ s.participants.length)) && s.participants.all (fun p => s.contributed.contains p)
+
+theorem commitChecks_eq_gen (s : Dkg.Session) :
+    commitChecks s = Gen.commitAcceptsGen s.contributed.length s.contributed.length s.participants.length
+      (s.participants.map (fun p => (s.contributed.contains p, s.contributed.contains p))) := by
+  rw [commitAcceptsGen_spec]
+  unfold commitChecks
+  by_cases h : s.contributed.length = s.participants.length <;> simp [h]
+
+example : Gen.commitAcceptsGen 2 2 2 [(true, true), (true, true)] = true ∧
+    Gen.commitAcceptsGen 2 2 2 [(true, true), (false, false)] = false ∧
+    Gen.commitAcceptsGen 2 2 2 [(true, true), (true, false)] = false ∧
+    Gen.commitAcceptsGen 2 3 2 [(true, true), (true, true)] = false ∧
+    Gen.commitAcceptsGen 1 2 2 [(true, true), (true, true)] = false ∧
+    commitChecks ⟨2, [1, 2], [2, 1], 0⟩ = true ∧ commitChecks ⟨2, [1, 2], [2, 3], 0⟩ = false := by decide
+
+/-- `commitChecks` is exactly what `onCommit` tests between finding the active session and looking at the wallet -/
+theorem onCommit_eq_commitChecks (c : Dkg.Cluster) (i caller : Nat) (acct : String) :
+    Dkg.onCommit c i caller acct =
+      if Dkg.senderId c caller = 0 then (c, .unknownSender) else
+      match Dkg.getInst c i with
+      | none => (c, .refused)
+      | some x =>
+        match (Dkg.active c x acct).1 with
+        | none => (Dkg.setInst c (Dkg.active c x acct).2, .refused)
+        | some s =>
+          if !commitChecks s then (Dkg.setInst c (Dkg.active c x acct).2, .refused)
+          else if !Dkg.distributedWallet acct then (Dkg.setInst c (Dkg.active c x acct).2, .refused)
+          else if (Dkg.active c x acct).2.accounts.contains acct then (Dkg.setInst c (Dkg.active c x acct).2, .refused)
+          else (Dkg.setInst c { (Dkg.dropSession (Dkg.active c x acct).2 acct) with
+                  accounts := acct :: (Dkg.active c x acct).2.accounts }, .ok) := by
+  unfold Dkg.onCommit commitChecks
+  split
+  · rfl
+  · cases Dkg.getInst c i with
+    | none => rfl
+    | some x =>
+      dsimp only
+      generalize Dkg.active c x acct = r
+      obtain ⟨s?, x'⟩ := r
+      cases s? with
+      | none => rfl
+      | some s =>
+        dsimp only
+        by_cases h1 : s.contributed.length = s.participants.length
+        · by_cases h2 : s.participants.all (fun p => s.contributed.contains p) = true <;> simp_all
+        · simp [h1]
+
+/-- so: whenever the translated guards refuse, `onCommit` refuses and creates nothing -/
+theorem onCommit_refused_of_gen (c : Dkg.Cluster) (i caller : Nat) (acct : String) (x : Dkg.DInst) (s : Dkg.Session)
+    (hx : Dkg.getInst c i = some x) (hs : (Dkg.active c x acct).1 = some s)
+    (hgen : Gen.commitAcceptsGen s.contributed.length s.contributed.length s.participants.length
+      (s.participants.map (fun p => (s.contributed.contains p, s.contributed.contains p))) = false) :
+    (Dkg.onCommit c i caller acct).2 ≠ .ok := by
+  rw [onCommit_eq_commitChecks, hx]
+  dsimp only
+  rw [hs, ← commitChecks_eq_gen] at *
+  dsimp only
+  split
+  · simp
+  · simp [hgen]
+
+/-! ## 11. `getGeneration` -/
+
+theorem generationExpired_eq_gen (now started timeout : Nat) :
+    Gen.generationExpiredGen now started timeout = decide (now - started > timeout) := rfl
+
+/-- `active` through the translated function: `present` = the account has a session, and the pair it returns says
+    whether the session is handed out and whether the entry is removed -/
+def activeWrap (c : Dkg.Cluster) (x : Dkg.DInst) (acct : String) : Option Dkg.Session × Dkg.DInst :=
+  match x.sessions.lookup acct with
+  | none =>
+    ((if (Gen.getGenerationGen false c.now 0 c.timeout).1 then some default else none), x)
+  | some s =>
+    ((if (Gen.getGenerationGen true c.now s.started c.timeout).1 then some s else none),
+     (if (Gen.getGenerationGen true c.now s.started c.timeout).2 then
+        { x with sessions := x.sessions.filter (·.1 != acct) } else x))
+
+theorem active_eq_gen (c : Dkg.Cluster) (x : Dkg.DInst) (acct : String) :
+    Dkg.active c x acct = activeWrap c x acct := by
+  unfold Dkg.active activeWrap Gen.getGenerationGen
+  cases x.sessions.lookup acct with
+  | none => simp
+  | some s =>
+    by_cases h : c.now - s.started > c.timeout <;> simp [h]
+
+example : Gen.generationExpiredGen 100 30 70 = false ∧ Gen.generationExpiredGen 101 30 70 = true ∧
+    Gen.generationExpiredGen 10 30 70 = false ∧ Gen.getGenerationGen true 101 30 70 = (false, true) ∧
+    Gen.getGenerationGen false 101 30 70 = (false, false) ∧ Gen.getGenerationGen true 100 30 70 = (true, false) := by decide
+
+/-! ## 12. `Suitable` -/
+
+theorem suitableRefuses_eq_gen (threshold npeers : Nat) :
+    Gen.suitableRefusesGen threshold npeers = decide (threshold > npeers) := by
+  unfold Gen.suitableRefusesGen
+  by_cases h : threshold > npeers <;> simp [h]
+
+/-- the model's `suitableAlloc` (the function `C20_alloc_bounded` is about) is the translated guard followed by the
+    translated allocation size -/
+theorem suitableAlloc_eq_gen (npeers n : Nat) : suitableAlloc npeers n = .ok (Gen.suitableAllocGen n npeers) := by
+  unfold suitableAlloc Gen.suitableAllocGen
+  rw [suitableRefuses_eq_gen]
+  by_cases h : n > npeers <;> simp [h]
+
+/-- `C20_alloc_bounded`, read off the translated code directly -/
+theorem suitableAllocGen_bounded (npeers n k : Nat) (h : Gen.suitableAllocGen n npeers = some k) : k ≤ npeers := by
+  unfold Gen.suitableAllocGen at h
+  rw [suitableRefuses_eq_gen] at h
+  by_cases hn : n > npeers
+  · simp [hn] at h
+  · simp [hn] at h; omega
+
+example : Gen.suitableAllocGen 3 3 = some 3 ∧ Gen.suitableAllocGen 4 3 = none ∧
+    Gen.suitableAllocGen 4294967295 3 = none ∧ Gen.suitableRefusesGen 4 3 = true := by decide
 
 end Dirk
